@@ -381,13 +381,19 @@ def from_arg(
 T = TypeVar("T")
 
 
+def _identity(x: T) -> T:
+    return x
+
+
 @dataclass
 class ToArgs(Generic[T]):
     _args: tuple[T, ...]
     # Mapping of the actual index argument to the position it was
     # found
     _index_to_order: dict[int, int] = field(default_factory=dict)
-    _hash_fn: Callable[[T], Hashable] = field(default=hash)
+    # The key which tells the args apart. It has to be different for different
+    # args, so it cannot be their hash
+    _hash_fn: Callable[[T], Hashable] = field(default=_identity)
 
     def __post_init__(self) -> None:
         # Indices of args which occur more than once. They cannot be looked up by
@@ -418,7 +424,9 @@ class FromArgs(Generic[T]):
     _i_to_arg: dict[int, T] = field(default_factory=dict)
     # Mapping from hash of argument to the actual index
     _arg_to_i: dict[Hashable, int] = field(default_factory=dict)
-    _hash_fn: Callable[[T], Hashable] = field(default=hash)
+    # The key which tells the args apart. It has to be different for different
+    # args, so it cannot be their hash
+    _hash_fn: Callable[[T], Hashable] = field(default=_identity)
 
     def __setitem__(self, i: int, arg: T) -> None:
         if i in self._i_to_arg:
